@@ -69,3 +69,36 @@ package oci
 //@   loop 1 invariant [kept] storeRI(s) && s.tagResolver == old(s.tagResolver) && s.graph == old(s.graph) && s.storage == old(s.storage) && s.AutoGC == old(s.AutoGC)
 //@   loop 2 invariant [kept] storeRI(s) && s.tagResolver == old(s.tagResolver) && s.graph == old(s.graph) && s.storage == old(s.storage) && s.AutoGC == old(s.AutoGC)
 //@   call append requires [C09:enqueue-untagged-only] forall i int :: 0 <= i && i < len(args.arg1) ==> !taggedNow(s, args.arg1[i])
+//@
+//@ pure height(d ocispec.Descriptor) mathint
+//@ axiom [merkle-height] forall d ocispec.Descriptor :: height(d) >= 0
+//@
+//@ func manifestutil.Subject
+//@   trusted
+//@   ensures [merkle-acyclic] result1 == nil && result0 != nil ==> height(*result0) < height(desc) && alive(result0)
+//@   modifies alloc, new ocispec.Descriptor.*, elems[byte]
+//@
+//@ func (*graph.Memory).IndexAll
+//@   trusted
+//@   requires [ri] graphRI(m)
+//@   ensures graphRI(m)
+//@   modifies map[descriptor.Descriptor]ocispec.Descriptor@m.nodes, map[descriptor.Descriptor]set.Set[descriptor.Descriptor]@m.predecessors+m.successors, map[descriptor.Descriptor]unit, elems[ocispec.Descriptor], elems[byte], alloc
+//@
+//@ func deleteAnnotationRefName
+//@   ensures [C08:content-kept] result.Digest == desc.Digest && result.MediaType == desc.MediaType && result.Size == desc.Size
+//@   modifies alloc, new map[string]string
+//@
+//@ func (*Store).gcIndex
+//@   requires [ri] storeRI(s)
+//@   loop 0 invariant [ri] resolverRI(tagResolver) && graphRI(graph) && alive(tagResolver) && alive(graph) && tagged != nil && alive(tagged) && !isTagSetOf(tagResolver, tagged) && s.storage == old(s.storage)
+//@   loop 1 invariant [ri] resolverRI(tagResolver) && graphRI(graph) && alive(tagResolver) && alive(graph) && tagged != nil && alive(tagged) && !isTagSetOf(tagResolver, tagged) && s.storage == old(s.storage)
+//@   loop 2 invariant [ri] resolverRI(tagResolver) && graphRI(graph) && alive(tagResolver) && alive(graph) && tagged != nil && alive(tagged) && !isTagSetOf(tagResolver, tagged) && s.storage == old(s.storage) && subject != nil
+//@   loop 2 decreases [C09:subject-chain-terminates] height(*subject)
+//@   ensures [C09:ri] result == nil ==> storeRI(s)
+//@
+//@ func (*Store).GC
+//@   requires [ri] storeRI(s) && ctx != nil
+//@   loop 0 invariant [kept] reachableNodes != nil && (forall i int :: 0 <= i && i < len(algDirs) ==> algDirs[i] != nil)
+//@   loop 1 invariant [kept] reachableNodes != nil && (forall i int :: 0 <= i && i < len(algDirs) ==> algDirs[i] != nil) && (forall i int :: 0 <= i && i < len(digestEntries) ==> digestEntries[i] != nil)
+//@   call os.Remove requires [C09:remove-only-unreachable] !(blobDigest in reachableNodes)
+//@   call os.Remove requires [C09:known-algorithm-only] alg == "sha256" || alg == "sha512" || alg == "sha384"
